@@ -493,3 +493,39 @@ def c06_9(R):
                    "retransmitted segment instead of the highest sequence number sent, so duplicate ACKs of the original flight are no longer ignored", where=before[0].where(), instance="recovery-point=highest-sent")
         else:
             R.ok("recovery-point=highest-sent", STQ, "on_rto_timeout(last_sent_seq_nr) at %s reads the value from before the rewind" % t.where())
+
+
+@rule("C06.10", ["C06", "C15", "C05"], ["E2", "E7"], "a timeout during fast recovery always ends the recovery episode",
+      "Recovery::on_rto_timeout, entered in phase Recovering, unconditionally moves to IgnoringUntilRecoveryPoint { recovery_point: the highest sequence number sent } (C06.9). While Recovering the "
+      "dispatcher sends against the recovery window (rec.cwnd - pipe), not against the controller's collapsed window, and the ACK that reaches the recovery point writes rec.cwnd back as ssthresh: "
+      "any exit that keeps the phase after a timeout lets the sender burst the pre-timeout window and undoes the timeout's ssthresh.")
+def c06_10(R):
+    from utpsa.flow import must_pass_blocks
+    b = R.body("recovery::Recovery::on_rto_timeout")
+    stores = [s for s in b.stmts() if written_field(b, s) == "Recovery.phase"]
+    R.floor("phase stores in Recovery::on_rto_timeout", len(stores), 1)
+    ok_val = False
+    for s in stores:
+        t = trace(b, s.rv.ops[0]) if s.rv.kind == "use" and s.rv.ops else None
+        agg = s.rv if s.rv.kind == "agg" else (t.root[1].rv if t is not None and t.kind == "rv" and t.root[1].rv.kind == "agg" else None)
+        if agg is not None and agg.j.get("variant") == "IgnoringUntilRecoveryPoint" and agg.ops:
+            v = trace(b, agg.ops[0])
+            if v.kind == "param" and v.root[1] == 2:
+                ok_val = True
+    # every way through the function that saw phase == Recovering passes a store
+    rec_targets = []
+    for blk in b.blocks:
+        if blk.cleanup or blk.term.kind != "switch":
+            continue
+        for tgt, lab in b.edges(blk.idx):
+            d = describe_cond(b, blk.term, lab)
+            if d.startswith("discr:") and "Recovery.phase" in d and d.endswith("=Recovering"):
+                rec_targets.append(tgt)
+    R.require(rec_targets, "the test phase == Recovering in on_rto_timeout")
+    sb = {s.bb for s in stores}
+    skippable = [t for t in rec_targets if not must_pass_blocks(b, b.return_blocks(), sb, start=t)[0]]
+    if ok_val and not skippable:
+        R.ok("rto-in-recovery=>ignoring", b.name, "Recovering -> IgnoringUntilRecoveryPoint { recovery_point: last_sent_seq_nr } on every path")
+    else:
+        R.fail([b.name, "recovering-can-survive-a-timeout" if skippable else "new-phase-shape"], "Recovery::on_rto_timeout can return with the phase still Recovering (or does not install IgnoringUntilRecoveryPoint "
+               "{ last_sent_seq_nr }): after the timeout the sender keeps sending against the recovery window instead of the collapsed one", where=b.where(), instance="rto-in-recovery=>ignoring")
